@@ -2,6 +2,6 @@
 EXTENDS Notarization, Json
 RECURSIVE SetToSeq(_)
 SetToSeq(S) == IF S = {} THEN <<>> ELSE LET x == CHOOSE y \in S : TRUE IN <<x>> \o SetToSeq(S \ {x})
-HistJson == [i \in 1..Len(hist) |-> [m |-> hist[i].m, s |-> SetToSeq(hist[i].s), rep |-> hist[i].rep]]
+HistJson == [i \in 1..Len(hist) |-> [m |-> hist[i].m, s |-> SetToSeq(hist[i].s), rep |-> hist[i].rep, early |-> hist[i].early]]
 GPrint == (msgs = MaxMsgs) => PrintT(<<"BEHAVIOUR", ToJson(HistJson)>>)
 =============================================================================
